@@ -1033,7 +1033,9 @@ bool ReplaceContent(const string& file_dst, const string& new_content,
   }
 #endif
 
-  if (platformAwareUnlink(file_dst.c_str()) < 0) {
+  // The destination may be gone already (e.g. a log with a bad header that
+  // was removed when it was loaded); that is no obstacle to replacing it.
+  if (platformAwareUnlink(file_dst.c_str()) < 0 && errno != ENOENT) {
     *err = strerror(errno);
     return false;
   }
